@@ -21,9 +21,10 @@ theorem enum_bounds (r : Rule) (p : Inst) (hr : WfRule r) (hp : WfInst p) (t : N
   have h60 := times_lt60 r p hr hp t ht
   refine ⟨?_, h60.1, h60.2⟩
   have h1 := (mem_times _ t ht).1
-  rw [makeEnum_eq] at h1
-  have h1 : t.1 ∈ sel r.H p.H := h1
-  unfold sel at h1
+  unfold makeEnum at h1
+  split at h1
+  · simp only [List.mem_singleton] at h1; omega
+  dsimp only at h1
   split at h1
   · simp only [List.mem_singleton] at h1; omega
   · obtain ⟨a, _, e⟩ := List.mem_map.mp h1; omega
